@@ -5,6 +5,7 @@ single-sample generated plates and size limit, sparse cover, combination filter 
 optimality, per-sample minimum, merges within a sample, min-merging stops exactly, top-bottom halving.
 """
 from harness import prep_common as P
+from harness import prep_pipeline as PP
 
 RULE = ("per operation (3 generators, 6 smoothers, initial plate, combination filter, 2 hold-outs): random screens with several "
         "samples of few experiments each, samples with exactly the size limit, single-agent and vehicle-only rows, arity 1-3, one or many "
@@ -25,12 +26,19 @@ RULE = ("per operation (3 generators, 6 smoothers, initial plate, combination fi
         "control, pairwise single-agent samples that are not a sorted prefix of the combination samples; array attributes of results "
         "enumerated by introspection (+ ids one-to-one with names); 5 cases per operation repeated in another interpreter with another "
         "PYTHONHASHSEED; generator seed 0, one-row screens, parameters 0/1, sample id 0 dropped; rows shuffled (observed rows before / between "
-        "unobserved ones, plates and samples interleaved); >= 11 and >= 101 generated plates.")
+        "unobserved ones, plates and samples interleaved); >= 11 and >= 101 generated plates."
+        " PIPELINE stream (op `pipeline`, evidence `pipeline.*`): the real cli/prepare_retrospective_simulation.main() on small saved screens, "
+        "36 option combinations per quick run (all generator x smoother pairs, 8 targeted initial-generator combinations; all 3x4x7 in the thorough "
+        "tier), one recording generator injected through get_prng_from_seed_argument, stage markers around the initial generator / generator / "
+        "smoother / hold-out, outputs read with h5py and compared with Model/PrepPipeline.lean; end-to-end oracles on the files (conservation vs a "
+        "reference combination filter, test fully observed + per-plate counts, shared mappings, initial plate covers, single-sample unobserved plates).")
 
 
 def run(ctx, res):
-    P.run_property(ctx, res, "C13", P.oracles_c13, RULE)
+    P.run_property(ctx, res, "C13", P.oracles_c13, RULE, extra_stream=PP.run_stream)
 
 
 def replay(ctx, case, res):
+    if case.get("op") == "pipeline":
+        return PP.replay(ctx, case, res, "C13")
     P.replay_property(ctx, case, res, P.oracles_c13, "C13")
